@@ -97,6 +97,28 @@ CLAIMED = {
              "partition, on a copy); inherited property objects are never mutated; re-queue and separator-anchored self-reference "
              "test. Not decided: round trip of composed instances.",
         ref="DESIGN.md §4 C15"),
+    "C07": dict(
+        technique="error-discipline lint over the typed program (calls returning error unions), must-pass-through on per-item loop CFGs, CFG dominance on keyed registries, static non-emptiness of the tag list",
+        text="Accounting clauses over all paths: no error-typed value is discarded (58 call sites); in the 8 loops over document "
+             "collections each of the 19 skips is preceded by an error record in the same iteration or is one of 5 frozen benign "
+             "cases; diagnostics name METHOD+path / reference; registry collisions lead to diagnostics (3 module-file scopes are "
+             "known findings); the tag list of an operation is provably non-empty; error lists are concatenated up to the CLI; "
+             "method list = Operation fields of PathItem. Not decided: the census itself.",
+        ref="DESIGN.md §4 C07"),
+    "C08": dict(
+        technique="CFG dominance (dependency recording), argument-forwarding check, def-use rule on the threaded Schemas/Parameters state, loop-containment scan, alias rule on the dependency registry",
+        text="Containment mechanisms only: add_dependencies dominates every successful reference resolution and roots are forwarded "
+             "to every recursive build; removal visits recorded dependants; the threaded state is rebound only from results of "
+             "steps that received it (42 assignments, 32 error returns); no return/break inside the 17 per-item loops; the "
+             "registry stores a fresh set. Not decided: byte equality of two output trees.",
+        ref="DESIGN.md §4 C08"),
+    "C20": dict(
+        technique="def-use rules on the three resolvers, attribute-copy completeness, atoms of the reference validator's rejection test, enumeration of every .ref read",
+        text="Resolver convergence only: the reference branches rebind just the resolved variable; the chain loop tests the current "
+             "link; parameter_from_data copies what add_parameters reads; every .ref read (13) is validated / chain-guarded / "
+             "diagnostic text; the validator rejects every non-fragment URL component; misses return errors; a schema reference "
+             "evolves only use-site attributes; the dependency registry does not alias. Not decided: equality of generated code.",
+        ref="DESIGN.md §4 C20"),
 }
 
 NOT_APPLICABLE = {
